@@ -1,6 +1,7 @@
 package modes
 
 import (
+	"strings"
 	"fmt"
 )
 
@@ -66,7 +67,7 @@ func judgeC03(e *Env, c *hsCase, o hsObs) []hsVerdict {
 
 // judgeC10: a server that does not offer cleartext never authenticates over cleartext.
 func judgeC10(e *Env, c *hsCase, o hsObs) []hsVerdict {
-	if inList(c.Cfg.EncOpts, "none") || c.Route != "pipe-tls" {
+	if inList(c.Cfg.EncOpts, "none") || !strings.HasPrefix(c.Route, "pipe-tls") {
 		return nil // the hypothesis (cleartext not offered, transport can provide a configured option) does not hold
 	}
 	ok := false
